@@ -397,6 +397,13 @@ func (c *core) fastForward(block *hg.Block, frame *hg.Frame) error {
 	// Update peer-selector and validators
 	c.setPeers(peers.NewPeerSet(frame.Peers))
 	c.validators = peers.NewPeerSet(frame.Peers)
+	lastRound := frame.Round
+	for r, ps := range frame.PeerSets {
+		if r > lastRound {
+			lastRound = r
+			c.validators = peers.NewPeerSet(ps)
+		}
+	}
 
 	return nil
 }
